@@ -482,7 +482,8 @@ def dispatch(prog: Program, rep) -> None:
             if not isinstance(v, ast.Call):
                 continue
             tgt = prog.resolve_call_target(f, v)
-            if any(isinstance(t, ClassInfo) for t in tgt):
+            local_var = isinstance(v.func, ast.Name) and any(isinstance(n_, ast.Name) and n_.id == v.func.id and isinstance(n_.ctx, ast.Store) for n_ in own_nodes(f.node))
+            if any(isinstance(t, ClassInfo) for t in tgt) and not local_var:
                 sites.append((r, dotted(v.func) or ""))
             elif isinstance(v.func, ast.Name):
                 for q in ff.order:
